@@ -46,6 +46,8 @@ def gen_calls(rng, n):
                 "trace": True, "twice": True}
         if rng.random() < 0.08:
             kw["seed"] = 2 ** 31 - 1 - rng.randint(0, 2)        # the largest seeds a C int holds
+        if rng.random() < 0.3:
+            call["init_list"] = True             # an initial state over the labels 0..n-1 handed over as a list
         if rng.random() < 0.2:
             call["positional"] = True
         if rng.random() < 0.2:
@@ -59,6 +61,9 @@ def gen_calls(rng, n):
             for t_ in terms:
                 if len(t_[0]) == 2:
                     t_[1] *= 2 ** 25
+        if rng.random() < 0.2:
+            # temperatures written as Python ints
+            kw["schedule"] = [int(T_) if float(T_).is_integer() else T_ for T_ in kw["schedule"]]
         if rng.random() < 0.15:
             # real coefficients far below 1: the whole model and the temperatures scaled by 2^-43 or 2^-30 (exact in binary
             # floating point); the record keeps the numerators, so the specification sees the same small integers
@@ -69,6 +74,22 @@ def gen_calls(rng, n):
         if kind != "dict" and terms and rng.random() < 0.2:
             call["warm"] = True
         calls.append(call)
+    return calls
+
+
+def directed_calls(start_id):
+    """integer labels first mentioned out of order (the enumeration is a permutation), the initial state handed over as a
+    dict or as a list indexed by label, no sweep / frozen sweeps"""
+    calls = []
+    for fn, kind in (("anneal_quso", "dict"), ("anneal_quso", "QUSO"), ("anneal_puso", "dict"), ("anneal_puso", "PUSO")):
+        for sched in ([], [0.0], [0.0, 0.0]):
+            for as_list in (True, False):
+                terms = [[["L2", "L0"], 1], [["L1"], -1], [["L0"], 2]]
+                calls.append({"id": start_id + len(calls), "fn": fn, "kind": kind, "terms": terms, "den": 1,
+                              "labels": {"L0": "0", "L1": "1", "L2": "2"},
+                              "kwargs": {"schedule": list(sched), "in_order": True, "seed": 5, "num_anneals": 2,
+                                         "initial_state": [["L0", 1], ["L1", -1], ["L2", -1]]},
+                              "trace": True, "twice": True, "init_list": as_list})
     return calls
 
 
@@ -157,6 +178,23 @@ def to_record(call, out, tid):
            "ev": evs, "complete": True, "raised": out.get("raised", "") or out.get("raised2", ""), "badnum": badnum}
     rec["kernel_only"] = False
     sch = call["kwargs"].get("schedule")
+    # no sweep at all: every result is the caller's initial state (as the CALLER labelled it)
+    rec["zero_sweep_same"] = True
+    ini = call["kwargs"].get("initial_state")
+    if isinstance(sch, list) and not sch and ini and not rec["raised"]:
+        want = sorted([str(k_), int(v_)] for k_, v_ in ini)
+        for a_ in out.get("api", []):
+            got = sorted([str(names.get(k_, k_)), int(v_)] for k_, v_ in a_["st"])
+            if got != want:
+                rec["zero_sweep_same"] = False
+    # the temperature the kernel used in a step is the caller's (explicit) temperature of that sweep, to the last bit
+    sched_vals = None
+    if isinstance(sch, list):
+        sched_vals = [float(len(sch) - q_) for q_ in range(len(sch))] if call.get("sched_range") else [float(T_) for T_ in sch]
+    for e_ in evs:
+        if e_["e"] == "S":
+            T_ = e_.pop("_T", None)
+            e_["t_ok"] = True if (sched_vals is None or not (0 <= e_["t"] < len(sched_vals))) else bool(T_ == sched_vals[e_["t"]])
     rec["has_sched"] = isinstance(sch, list) and bool(m)
     rec["sched_user"] = [bool(T > 0) for T in sch] if isinstance(sch, list) else []
     rec.update(mi)
@@ -185,6 +223,9 @@ def repo_test_records(so, wd, out):
             continue
         for e in evs:
             e.pop("u_ok", None)
+            if e["e"] == "S":
+                e.pop("_T", None)
+                e["t_ok"] = True
         N = mi["N"]
         # the hook stops writing step lines after TRACE_MAX but still writes the anneal boundaries: keep the events up to the
         # first anneal whose steps are not all there
@@ -210,7 +251,7 @@ def repo_test_records(so, wd, out):
         rec = {"tid": len(recs) + 1, "id": o["id"], "fn": "repo-test", "kind": "kernel", "den": 4, "matrix": True,
                "user": [[sorted(k), v] for k, v in kt.items()], "pi": list(range(N)), "inorder": bool(m["in_order"]),
                "tpos": [bool(T > 0) for T in m["Ts"]], "init": m["init"], "api": api, "api2": api, "ev2_equal": True, "ev": evs,
-               "complete": False, "raised": "", "badnum": "", "kernel_only": True, "has_sched": False, "sched_user": []}
+               "complete": False, "raised": "", "badnum": "", "kernel_only": True, "has_sched": False, "sched_user": [], "zero_sweep_same": True}
         rec.update(mi)
         recs.append(rec)
     return recs
@@ -266,6 +307,7 @@ def run(tier, out, replay=None):
                         out.notes.append("VACUITY WARNING: cache factor 2 not rejected")
             calls = gen_calls(rng, 6000 if thorough else 500)
             calls += uniformity_calls(rng, len(calls), 400 if thorough else 120)
+            calls += directed_calls(len(calls))
         rc, stdout, outs = ac.run_driver(calls, so, wd, "c12")
         byid = {o["id"]: o for o in outs}
         recs, raws = [], []
